@@ -580,3 +580,22 @@ def run(ctx):
             continue
         bad = bad or sym.show(ri, 4)
     ctx.inst("R19.3", "from-str-constructors", bad is None, f.where(), "every success path builds the value with new_negative / new_positive%s" % ("" if bad is None else ": found %s" % bad))
+    # the parser refuses only what the magnitude parser refuses: every failing path of from_str propagates the failure of
+    # its u128 parse (`?`); a rejection of its own (a length or character guard) can refuse the string form of a value
+    # that exists (round-13 seed C19o: a 39-character limit applied before the sign was stripped)
+    badr = None
+    n_err = 0
+    try:
+        for p in ix.paths(f):
+            if p.kind() != "err":
+                continue
+            n_err += 1
+            r = p.ret
+            inner = kids(r)[0] if tag(r) == "errfrom" and kids(r) else None
+            while inner is not None and tag(inner) in ("as", "unwrap_err", "try") and kids(inner):
+                inner = kids(inner)[0]
+            if not (inner is not None and tag(inner) == "call"):
+                badr = badr or "from_str fails with an error of its own (%s) instead of propagating the magnitude parser's" % sym.show(r, 4)[:120]
+    except Exception as e:
+        badr = "undetermined: %s" % e
+    ctx.inst("R19.3", "from-str-refuses-only-what-u128-refuses", badr is None and n_err > 0, f.where(), badr or "%d failing paths, each the propagated failure of the u128 parse" % n_err)
